@@ -45,6 +45,11 @@ CLAIMS = {
   note="CompileRoute of pkg/compiler trusted to compile its argument; equality of behaviour across optimisation levels is C03, not re-proved here; profiler/trigger heuristics are contract-less. Two genuine defects found and repaired: invalidation left specializations valid (stale code served), and unit fields were read without unitsMux while recompileRoute wrote them (race confirmed with go test -race).",
   technique="contract-based deductive verification: monitor invariants incl. fields of other objects guarded by a lock, ghost provenance of bytecode, WP over go/ssa",
   design="§5 C15"),
+ "C19": dict(
+  text="Deductive proof that 'a server is listening' is an invariant of the dev reload manager: with the ghost predicate running(srv), hotReloadManager.startServer is proved to re-establish m.server != nil ==> running(m.server) at every exit, to leave the previous server untouched and running when the edited source fails to read/parse/set up, and to hold a freshly launched server on success - hence after any finite sequence of edits (induction over reloads, each reload being one call); structural scans confine server launch and shutdown to the audited functions. For the library reload manager: Reload is called only with bytecode from a successful compilation of the change set, state is restored only after a successful reload, and every handled change set is counted (monitor on ReloadManager.mu).",
+  note="prepareDevServer (no listening) and launchDevServer are trusted summaries over running(); net/http Shutdown/Close trusted; fsnotify delivery, debounce and port re-binding timing not modelled; compiler/server interfaces of pkg/hotreload trusted through ghost predicates. One genuine defect found and repaired: startServer shut the running server down before reading the new source, so any failing edit left nothing listening.",
+  technique="contract-based deductive verification: monitor invariant over a ghost predicate, trusted effect summaries, call-site preconditions with ghost counters, structural call confinement",
+  design="§5 C19"),
 }
 
 def main():
